@@ -20,6 +20,8 @@ Is(a) == l <= NEv /\ Ev.a = a
 TWFit == /\ Is("fit") /\ T.kind = "wrap"
          /\ Require(\A j \in 1 .. Len(Ev.members) : Ev.members[j].rows = Ev.rows /\ Ev.members[j].ys = Ev.ys, T.id,
                     "TrainsLikeDirect", l, [members |-> Ev.members])
+         /\ Require(\A j \in 1 .. Len(Ev.members) : Ev.members[j].ws = Ev.ws, T.id, "FitParamsReachMembers", l,
+                    [given |-> Ev.ws, members |-> Ev.members])
          /\ Require(Len(Ev.members) = T.nmembers, T.id, "TrainsLikeDirect", l, [got |-> Len(Ev.members), want |-> T.nmembers])
          /\ members' = Ev.members /\ UNCHANGED vars /\ Go
 MemberOut(j, x) == IF T.stub = "reg" THEN RegOut(members[j].ys, x)
